@@ -76,6 +76,7 @@ static void sequences(void) {
   sort(a); out_seq("array sorted", a);
   sort_by(a, descending); out_seq("array descending", a);
   sort(t); out_seq("tuple sorted", t);
+  { var st = tuple($I(5), $I(-3), $I(12), $I(0), $I(7)); sort(st); out_seq("stack tuple sorted in place", st); sort_by(st, descending); out_seq("stack tuple descending", st); }
   var c = copy(a); concat(c, l); out_seq("copy+concat", c);
   OUT("cmp(array,copy)=%d eq(list,list)=%d", cmp(a, c) < 0 ? -1 : cmp(a, c) > 0, (int)eq(l, l));
   set(a, $I(0), $I(4242)); set(l, $I(-1), $I(-4242));
